@@ -3,6 +3,7 @@ package main
 import (
 	"fmt"
 	"io"
+	"runtime"
 	"strconv"
 	"strings"
 
@@ -107,8 +108,110 @@ func runC09Sub(c *Ctx, ch Chooser, cached, tagged, reacquire bool, nThreads int)
 	return line
 }
 
+// runC09Two: two threads obtain two DIFFERENT child identities whose registry keys have the same length
+// (Tagged({shard: a000}) / Tagged({shard: b000})) at the same time, parked at the same hooks; identity a000 optionally
+// that of a closed child not yet collected.  Run on ONE P (GOMAXPROCS(1)): whatever one call hands to a pool or a
+// per-P cache is what the other call gets next.  Oracle: each caller's scope carries its own tags, a later request for
+// either identity returns the object its first user got, and what was recorded through each is delivered under its tags.
+func runC09Two(c *Ctx, ch Chooser, cached, reacquire bool) string {
+	old := runtime.GOMAXPROCS(1)
+	defer runtime.GOMAXPROCS(old)
+	w := newWorld(cached, 0, 1, false)
+	tagsOf := []map[string]string{{"shard": "a000"}, {"shard": "b000"}}
+	want := map[string]int64{}
+	if reacquire {
+		o := w.root.Tagged(tagsOf[0])
+		o.Counter("hits").Inc(5)
+		want[mapHex(tagsOf[0])] += 5
+		o.(io.Closer).Close()
+	}
+	s := NewSched(func(l string) bool {
+		return l == "registry.subscope.pre-rlock" || l == "registry.subscope.pre-lock" || l == "registry.remove.pre-lock"
+	})
+	got := make([]tally.Scope, 2)
+	var thrs []*Thr
+	for i := 0; i < 2; i++ {
+		i := i
+		thrs = append(thrs, s.Spawn("T"+strconv.Itoa(i), func() {
+			sc := w.root.Tagged(tagsOf[i])
+			got[i] = sc
+			sc.Counter("hits").Inc(int64(1 + i))
+		}))
+		want[mapHex(tagsOf[i])] += int64(1 + i)
+	}
+	var trace []string
+	for {
+		var cand []*Thr
+		for _, t := range thrs {
+			if !t.Done {
+				cand = append(cand, t)
+			}
+		}
+		if len(cand) == 0 {
+			break
+		}
+		t := cand[ch.Pick(len(cand))]
+		to, _ := s.Step(t)
+		trace = append(trace, t.Name+"@"+to)
+		if to == "blocked" || to == "panic" {
+			c.Cov.Fail(Failure{Kind: "crash", Clause: to, Signature: "c09-two-identities", Line: strings.Join(trace, " "), Reply: fmt.Sprint(t.Pan)})
+			s.Finish()
+			return strings.Join(trace, " ")
+		}
+	}
+	s.Finish()
+	line := fmt.Sprintf("cached=%v a000-closed-uncollected=%v one P; T0 Tagged(shard:a000), T1 Tagged(shard:b000); schedule: %s", cached, reacquire, strings.Join(trace, " "))
+	fail := func(clause, why string) {
+		c.Cov.Fail(Failure{Kind: "violated", Clause: clause, Signature: "c09-two-identities", Line: line, Reply: why})
+	}
+	for i := 0; i < 2; i++ {
+		if g := mapHex(tally.VerifScopeTags(got[i])); g != mapHex(tagsOf[i]) {
+			fail("scope-carries-its-own-tags", fmt.Sprintf("caller %d asked for tags %s and received a scope with tags %s", i, mapHex(tagsOf[i]), g))
+			return line
+		}
+		if again := w.root.Tagged(tagsOf[i]); again != got[i] {
+			fail("same-identity-same-scope", fmt.Sprintf("a later Tagged(%s) returns another object (tags %s) than its first user received", mapHex(tagsOf[i]), mapHex(tally.VerifScopeTags(again))))
+			return line
+		}
+	}
+	tally.VerifReportOnce(w.root)
+	tally.VerifReportOnce(w.root)
+	sums := map[string]int64{}
+	for _, e := range w.log().Snapshot() {
+		if e.Kind == "counter" {
+			tags := e.Tags
+			if cached {
+				tags = w.recC.Meta[e.ID].Tags
+			}
+			sums[mapHex(tags)] += e.I
+		}
+	}
+	for k, v := range want {
+		if sums[k] != v {
+			fail("delivered-under-own-tags", fmt.Sprintf("tags %s: recorded %d, delivered %d (all deliveries by tags: %v)", k, v, sums))
+			return line
+		}
+	}
+	w.closer.Close()
+	return line
+}
+
 func suiteC09Sub(c *Ctx) {
-	c.Cov.Rule = "2-3 threads ask a live parent for the same child scope (SubScope / Tagged; identity new, or that of a closed child not yet collected and still holding unreported values) at the same time, each parked before the read lock, before the write lock and in the removal hand-over; plain and cached reporter; oracle: one object for all callers, everything recorded delivered exactly once, at most one Allocate per scope object; all schedules for 2 threads (8 configurations, DFS), 3 threads sampled; nontrivial = two threads were between probe and write lock at the same time; distinct by schedule"
+	for _, cached := range []bool{false, true} {
+		for _, re := range []bool{false, true} {
+			d := &dfsChooser{}
+			for n := 0; n < 3000; n++ {
+				d.depth = 0
+				line := runC09Two(c, d, cached, re)
+				c.Cov.Eval(line, strings.Count(line, "@registry.subscope.pre-lock") >= 2)
+				c.Cov.Schedules++
+				if !d.Next() {
+					break
+				}
+			}
+		}
+	}
+	c.Cov.Rule = "2-3 threads ask a live parent for the same child scope (SubScope / Tagged; identity new, or that of a closed child not yet collected and still holding unreported values) at the same time, each parked before the read lock, before the write lock and in the removal hand-over; plain and cached reporter; oracle: one object for all callers, everything recorded delivered exactly once, at most one Allocate per scope object; all schedules for 2 threads (8 configurations, DFS), 3 threads sampled; plus two threads obtaining two DIFFERENT identities with keys of equal length at the same time on one P (all schedules; each scope must carry its own tags and stay the object later requests return); nontrivial = two threads were between probe and write lock at the same time; distinct by schedule"
 	for _, cached := range []bool{false, true} {
 		for _, tagged := range []bool{false, true} {
 			for _, re := range []bool{false, true} {
